@@ -95,6 +95,8 @@ def load_corpus(prop_id, part_name):
     """Saved cases (shrunk failures of past findings, reverted fixes and seeded changes) under corpus/<ID>/*.json in
     replay-file format; they run first, in shard 0, through the same oracle as generated cases."""
     out = []
+    if os.environ.get("PVVERIF_NO_CORPUS"):  # sensitivity experiments: detection by generation only
+        return out
     d = os.path.join(VERIF_ROOT, "corpus", prop_id)
     if os.path.isdir(d):
         for f in sorted(os.listdir(d)):
